@@ -9,9 +9,10 @@ from common import blit
 
 PROP = "C17"
 PREAMBLE = "From PK Require Import Lib.Bytes Lib.Check Wire.U2fWire Wire.U2fCheck.\nOpen Scope N_scope.\n"
-COQ_TARGETS = ["theories/Wire/U2fCheck.vo", "theories/Wire/U2fWireFacts.vo"]
-HARNESS_BINS = ["u2fwire"]
-COQ_FILES = ["theories/Wire/U2fWire.v", "theories/Wire/U2fWireFacts.v", "theories/Props/C17.v"]
+import c17cer
+COQ_TARGETS = ["theories/Wire/U2fCheck.vo", "theories/Wire/U2fWireFacts.vo"] + c17cer.COQ_TARGETS
+HARNESS_BINS = ["u2fwire"] + c17cer.HARNESS_BINS
+COQ_FILES = ["theories/Wire/U2fWire.v", "theories/Wire/U2fWireFacts.v", "theories/Props/C17.v"] + c17cer.COQ_FILES
 CTRL = (3, 7, 8)
 FLAG_BITS = 0xDD          # defined bits of passkey_types::ctap2::Flags
 
@@ -362,6 +363,9 @@ def check(run):
                        "case": c, "observed": o, "model": model_view(terms[i]), "others": len(res["agree"]) - 1},
                       found_input=False)
 
+    # ---- ceremony half: U2fApi::register / authenticate against Auth/U2f.v and the independent signature oracle
+    cer = c17cer.check_ceremony(run)
+
     # ---- evidence
     n_lem = common.count_lemmas(COQ_FILES)
     sigs = set(signature(c, o) for c, o in kept)
@@ -378,18 +382,21 @@ def check(run):
         "checker_cmd": "make -C coq theories/Props/C17.vo (coqc 8.16.1, full .vo build) + hygiene gate + Print Assumptions",
         "trusted_base": ["Coq 8.16.1 kernel, vm_compute",
                          "hand-written model Wire/U2fWire.v tied by the differential run only (no translator): correspondence harness (pkharness u2fwire, counting allocator) + driver/c17.py",
+                         "hand-written ceremony model Auth/U2f.v tied by replay of the trait-call log of the real U2fApi calls (pkharness u2fcer, instrumented store) + driver/c17cer.py",
+                         "ECDSA/P-256 (p256 crate) not modelled: theorems are for any scheme with verify(pub(d), m, sign(d, m)); real signatures verified by independent pure-Python P-256 arithmetic (driver/ceremony.py)",
                          "specification encoder encode_request (FIDO U2F raw message formats, extended length) cross-checked against the driver's own encoder on every strictly laid out frame",
                          "usize is 64 bits on the check platform",
                          "coqchk: " + coqchk,
                          "Print Assumptions: %d closed under the global context, axioms: %s" % (assum["closed"], assum["with_allowed_axioms"] or "none")],
         "theorems": thms,
-        "evaluations": len(terms), "distinct_nontrivial": len(sigs),
-        "rule": "parse: strictly laid out frames of the three commands (key handle 0,1,16,64,255 and random, control 3/7/8, no Le / 00 00 / random Le, "
+        "evaluations": len(terms) + cer["evaluations"], "distinct_nontrivial": len(sigs) + cer["distinct"],
+        "ceremony": cer,
+        "rule": "ceremony: " + cer["rule"] + " || wire: parse: strictly laid out frames of the three commands (key handle 0,1,16,64,255 and random, control 3/7/8, no Le / 00 00 / random Le, "
                 "P1 variants) + every truncation and some extensions of valid frames, every byte value at CLA/INS/P1/P2/marker, lying and extreme "
                 "length bytes, wrong payload sizes, key-handle length byte vs. remaining bytes, random strings; direct payload parsers incl. parameter "
                 "bytes outside {3,7,8}; response encoders over key-handle/certificate/signature lengths, flag sets and counters; status words. "
                 "distinct = (op, header byte classes, declared-vs-available relation, length buckets, outcome)",
-        "samples": [terms[0][:300], terms[len(wf) + 5][:300] if len(terms) > len(wf) + 5 else "", terms[-3][:300]],
+        "samples": [terms[0][:300], terms[len(wf) + 5][:300] if len(terms) > len(wf) + 5 else "", terms[-3][:300], cer["sample"]],
         "model_disagreements": len(res["agree"]), "oracle_failures": len(res["oracle"]), "crashes": len(crashed),
         "wellformed_frames": len(wf), "wellformed_accepted": accepted_wf, "malformed_frames": len(mal),
         "direct_parser_cases": len(direct), "encoding_cases": len(enc), "outcome_histogram": hist,
@@ -400,7 +407,9 @@ def check(run):
                          "(theorem c17_version_iso_short_le_is_rejected)" % json.dumps({k: v for k, v in iso_version.items() if k != "allocs"})],
     })
     run.assumptions += ["request frames use the extended length encoding with the three Lc bytes always present (the only form the parser reads)",
-                        "ceremony-level half of C17 (signatures, stored credential) is checked by the ceremony model, not here"]
+                        "the same key handle registered under two applications is generated only for stores that filter lookups by RP ID "
+                        "(MemoryStore ignores the RP ID: C05 known finding memory-store-ignores-rp-id, not re-reported here)",
+                        "registration signatures are fixed-width r||s (Signature::to_vec), authentication signatures DER: both accepted as 'a signature that verifies'; the model records which"]
 
 
 # ---------------------------------------------------------------------------------------------
@@ -463,6 +472,8 @@ def check_u2f_robust(run, binary=None, tag=None):
 
 
 def replay(payload):
+    if payload.get("domain") == "u2fcer":
+        return c17cer.replay_scenario(payload)
     binary = common.harness_build("u2fwire")
     c = payload["case"]
     o = common.harness_one(binary, c)
